@@ -162,6 +162,7 @@ EXPORT char *_gets_s_chk(char *restrict dest, rsize_t dmax,
             }
         }
     } else {
+        *dest = '\0'; /* end-of-file or read error: no string was read */
         if (!feof(stdin) && errno == 0) { /* closed? */
         nospc:
             handle_error(dest, dmax, "gets_s: length exceeds dmax", ESNOSPC);
